@@ -797,14 +797,16 @@ func runReplay(p *Prop, file string) int {
 	defer os.RemoveAll(work)
 	args := []string{"-test.run", "^TestReplay$", "-test.v", "-test.timeout", "10m"}
 	var cmd *exec.Cmd
+	nsEnv := "VERIF_NETNS=0"
 	if p.Netns && haveNetns() {
 		a := append([]string{"-n", "sh", "-c", `ip link set lo up; exec "$@"`, "sh", bin}, args...)
 		cmd = exec.Command("unshare", a...)
+		nsEnv = "VERIF_NETNS=1"
 	} else {
 		cmd = exec.Command(bin, args...)
 	}
 	cmd.Dir = work
-	cmd.Env = append(os.Environ(), "VERIF_OUT="+work, "VERIF_REPLAY="+abs, "VERIF_TIER=quick",
+	cmd.Env = append(os.Environ(), nsEnv, "VERIF_OUT="+work, "VERIF_REPLAY="+abs, "VERIF_TIER=quick",
 		"VERIF_KF="+filepath.Join(verifDir, "known_findings.json"), "TMPDIR="+work, "GOTRACEBACK=all")
 	cmd.Stdout = os.Stdout
 	cmd.Stderr = os.Stderr
@@ -814,6 +816,10 @@ func runReplay(p *Prop, file string) int {
 			return 1
 		}
 		fmt.Println("vcheck: replay:", err)
+		return 2
+	}
+	if why, err := os.ReadFile(filepath.Join(work, "replay.inconclusive")); err == nil {
+		fmt.Printf("REPLAY-INCONCLUSIVE property=%s replay=%s reason=%s\n", p.ID, abs, strings.SplitN(string(why), "\n", 2)[0])
 		return 2
 	}
 	fmt.Printf("REPLAY-PASS property=%s replay=%s\n", p.ID, abs)
